@@ -352,7 +352,12 @@ def eval_dynamic(r: CaseResult, comp, flat, mask, rt, offset):
             r.transitions += n
             if [ref.addr([sa], (i,)) for i in range(n)] != [ref.addr([sb], (i,)) for i in range(n)]:
                 bad.append(f"canonicalize() changed the static address contribution of dim {d}: {L} -> {C}")
-    table = tuple(ref.addr(got_dims, idx) for idx in ref.box(shp))
+    try:
+        table = tuple(ref.addr(got_dims, idx) for idx in ref.box(shp))
+    except (ZeroDivisionError, TypeError, IndexError):
+        # the bounds the implementation computed at run time are not a layout at all (a zero or missing bound)
+        table = ()
+        bad.append(f"get_bound_ops / get_step_ops: the run-time bounds and steps {got_dims} do not describe a layout for shape {shp}")
     r.count("dynamic_instantiations_injective", int(len(set(table)) == len(table)))
     r.obs = ("dyn", str(L), shp, table)
     r.states = len(table)
